@@ -170,7 +170,7 @@ struct RegHarness : Harness {
     std::vector<std::string> props() const override { return {"C01", "C02", "C03", "C04", "C05"}; }
     uint64_t runs(const std::string &p, const Tier &t) const override {
         if (p == "C04") return t.thorough() ? 12000000 : 1000000;
-        return t.thorough() ? 6000000 : 500000;
+        return t.thorough() ? 4000000 : 500000;
     }
     std::vector<std::string> probes(const std::string &p) const override {
         if (p == "C01") return {"handle_eq_entries", "handle_beyond", "float_nan", "float_inf", "float_subnormal", "float_negative_zero", "type_mismatch_refused",
